@@ -225,17 +225,13 @@ def street (s : State) : Option Street :=
 
 def lastStreet : Option Street := cfg.streets.getLast?
 
-/-- `self.street is self.streets[-1]` -/
+/-- `self.street_index == self.street_count - 1` -/
 def streetIsLast (s : State) : Bool :=
-  match s.street cfg, lastStreet cfg with
-  | some a, some b => a.ident == b.ident
-  | _, _ => false
+  s.streetIndex == some ((cfg.streets.length : Int) - 1)
 
-/-- `self.street is self.streets[0]` -/
+/-- `self.street_index == 0` -/
 def streetIsFirst (s : State) : Bool :=
-  match s.street cfg, cfg.streets.head? with
-  | some a, some b => a.ident == b.ident
-  | _, _ => false
+  s.streetIndex == some 0
 
 def liveCount (s : State) : Nat := countTrue s.statuses
 
@@ -855,9 +851,8 @@ def verifyShow (s : State) (arg : ShowArg) (i : Option Nat) : Except Err (Verdic
             | some x => x
             | none => if status then (own, own, List.replicate own.length true) else ([], [], [])
           if cfg.tournament && status && (cards.filter Card.known).length < own.length then
-            if s.allIn then .error .valueError
-            else if s.streetIsLast cfg then .error .valueError
-            else .error .assertionError
+            -- all three branches of state.py raise ValueError
+            .error .valueError
           else if (hc.zip hs).any (fun (c, st) => !c.known && st) then .error .valueError
           else if status && !(cards.length == hc.length && hc.length == own.length
                 && own.length == hs.length && hs.length == (s.holeStatusesOf p).length) then
@@ -912,7 +907,7 @@ def Config.validate (c : Config) : Option Err :=
     else if minI c.antes < 0 || c.bringIn < 0 then some .valueError
     else if !c.antes.any (· != 0) && !c.blinds.any (· != 0) && c.bringIn == 0 then some .valueError
     else if minI c.startingStacks ≤ 0 then some .valueError
-    else if c.blinds.any (fun b => 0 > b) && c.bringIn != 0 then some .valueError
+    else if c.blinds.any (· != 0) && c.bringIn != 0 then some .valueError
     else if c.bringIn ≥ st0.minBet then some .valueError
     else if c.n < 2 then some .valueError
     else if c.startingBoardCount ≤ 0 then some .valueError
